@@ -41,6 +41,11 @@ type Run struct {
 	Obls     []*Obligation
 	Floors   map[string][2]int // rule -> {found, floor}
 	Notes    []string
+	// Sensitivity is filled by the thorough tier: one record per seeded change that was
+	// applied to a scratch copy and re-analysed. It never influences the exit code.
+	Sensitivity any
+	// Quiet suppresses report files and stdout (used for scratch-copy runs).
+	Quiet bool
 	Explain  string
 	Assume   []string
 	FuncsSeen map[string]bool
@@ -48,9 +53,13 @@ type Run struct {
 	start    time.Time
 }
 
+// processStart is taken when the analyser starts, so that wall_s includes loading and
+// type-checking the repository.
+var processStart = time.Now()
+
 func NewRun(p *Prog, property, tier string) *Run {
 	return &Run{P: p, Property: property, Tier: tier, Floors: map[string][2]int{},
-		FuncsSeen: map[string]bool{}, start: time.Now()}
+		FuncsSeen: map[string]bool{}, start: processStart}
 }
 
 func (r *Run) add(rule, construct, site, verdict, why string) *Obligation {
@@ -303,6 +312,7 @@ func (r *Run) Finish() int {
 			"floors":              floors,
 			"known_findings":      knownLines,
 			"notes":               r.Notes,
+			"sensitivity":         r.Sensitivity,
 			"exhaustive":          true,
 			"checker_cmd":         fmt.Sprintf("bin/olricvet check %s %s", r.Property, r.Tier),
 		},
